@@ -294,10 +294,14 @@ func RunCheck(id, tier string, seed int64, replayFile string) int {
 							if fi, err := os.Stat(jf); err == nil {
 								size = fi.Size()
 							}
+							// "uses CPU" means at a rate a computing worker has even on a crowded machine (5% of one
+							// core between two looks); the odd tick of a runtime's background threads in a stuck
+							// process does not count, however long it adds up
 							cpu := procCPUTicks(pid)
-							if size != lastSize || cpu >= lastCPU+100 || lastCPU < 0 {
-								lastProgress, lastSize, lastCPU = time.Now(), size, cpu
+							if size != lastSize || cpu >= lastCPU+25 || lastCPU < 0 {
+								lastProgress = time.Now()
 							}
+							lastSize, lastCPU = size, cpu
 							if time.Since(lastProgress) > time.Duration(wall)*time.Second {
 								wallFired = true
 								syscall.Kill(-pid, syscall.SIGQUIT)
